@@ -19,6 +19,10 @@ type FakeCln struct {
 	Inv       *Invoices
 	ln        net.Listener
 
+	// OnPay is consulted for every payment-creating command; fail=true makes
+	// the node answer with a routing failure (the payment attempt was made)
+	OnPay func() (fail bool)
+
 	mu    sync.Mutex
 	calls []ClnCall
 }
@@ -62,6 +66,9 @@ func (f *FakeCln) Reset() {
 	f.calls = nil
 	f.mu.Unlock()
 }
+
+// Seen: number of requests of any kind since Reset.
+func (f *FakeCln) Seen() int { return len(f.Calls()) }
 
 func (f *FakeCln) Calls() []ClnCall {
 	f.mu.Lock()
@@ -140,6 +147,9 @@ func (f *FakeCln) handle(method string, params json.RawMessage) (any, *clnErr) {
 	case "sendpay":
 		var p glightning.SendPayRequest
 		_ = json.Unmarshal(params, &p)
+		if f.OnPay != nil && f.OnPay() {
+			return nil, &clnErr{204, "failed: WIRE_TEMPORARY_CHANNEL_FAILURE (verif: attempt failed at the node)"}
+		}
 		return map[string]any{"message": "Monitor status with listpays or waitsendpay", "id": 1, "payment_hash": p.PaymentHash,
 			"amount_msat": p.MilliSatoshis, "amount_sent_msat": p.MilliSatoshis, "created_at": 1700000001, "status": "pending"}, nil
 	case "waitsendpay":
